@@ -328,6 +328,11 @@ def final_oracle(inf, g, o, case, prog, out, ctx):
         return
     if not graph_equal(m, g2, o):
         out.fails.append(('roundtrip', f'decode(encode(result)) differs from the result: {text!r}', where))
+    elif (sorted(o.triples, key=sort_key) == deinverted(m, o)[2]
+          and sorted(g2.triples, key=sort_key) != deinverted(m, g2)[2]):
+        # the result has every edge in deinverted form, and reading deinverts every edge once: what comes back is
+        # in deinverted form too (an edge left in its written, inverted form is not `the same graph`)
+        out.fails.append(('roundtrip', f'decode(encode(result)) leaves an edge in inverted form: {text!r} -> {g2.triples!r}', where))
 
 
 def eval_graph(inf, g, case, programs, out, pending, ctx):
@@ -504,6 +509,12 @@ def run(chk):
              '(a / x :ARG1-of (w / have-mod-91 :ARG2 7))', '(w / want-01 :ARG0 (b / boy) :ARG1 (g / go-02 :ARG0 b))',
              '(a / x :mod-of (b / y))', '(a / x :mod~1 (b / y~2) :polarity -)', '(a / x :mod _ :quant _2)',
              '(a / x :ARG0 (w / have-mod-91 :ARG1 (b / y) :ARG2 7))', '(c / x :subset c)', '(b / x :subset-of (a / y))']
+    # a collapsible node whose far end is an ALIGNED re-entrancy (defined later / earlier / the top): the dereified
+    # edge is written inverted with the alignment on the variable, and must be read back deinverted
+    named += ['(a / alpha :ARG2-of (_ / have-mod-91 :ARG1 b~2) :ARG0 (b / beta))',
+              '(a / alpha :ARG0 (b / beta) :ARG2-of (w / have-mod-91 :ARG1 b~e.3))',
+              '(a / alpha :ARG0 (b / beta :ARG1-of (w / have-mod-91 :ARG2 a~1)))',
+              '(a / alpha :ARG0 (b / beta) :ARG1 (c / gamma :ARG2-of (w / have-mod-91 :ARG1~4 b~5,6)))']
     # k reified nodes nested on the path that closes at the very end of the text: every dereification leaves one more
     # superfluous POP on the last triple (k = 1..6; a constant, a node, an attribute list at the innermost level)
     for k in range(1, 7):
